@@ -358,15 +358,26 @@ def rule_window(ck: Check, repo: Repo, folder: Folder) -> None:
                     and "path=relative_from_root(original_path, root).as_posix()" in out):
                 r.violation(q, f"result provenance when dot_license={d.get('dot_license')}",
                             f"returns {out[:160]}", repo.loc(fn))
-    # _contains_snippet: whole file, indicator membership
+    # _contains_snippet: the indicator is searched in the whole content (not chunk by chunk)
     cs = repo.func(f"{EX}._contains_snippet")
-    src = ast.unparse(cs)
-    ok = "binary_file.read()" in src and "SPDX_SNIPPET_INDICATOR in content" in src
     ind = folder.known(EX, "SPDX_SNIPPET_INDICATOR")
-    r.instance("_contains_snippet", {"whole_file": ok, "indicator": repr(ind)})
-    if not ok or ind != b"SPDX-SnippetBegin":
-        r.violation(f"{EX}._contains_snippet", "snippet detection", "must read the whole file and look for SPDX-SnippetBegin",
-                    repo.loc(cs))
+    reads = [c for c in ast.walk(cs) if isinstance(c, ast.Call) and isinstance(c.func, ast.Attribute) and c.func.attr == "read"]
+    whole = [c for c in reads if not c.args and not c.keywords]
+    sized = [c for c in reads if c.args or c.keywords]
+    tests = [n for n in ast.walk(cs) if isinstance(n, ast.Compare) and any(isinstance(o, ast.In) for o in n.ops)
+             and "SPDX_SNIPPET_INDICATOR" in ast.unparse(n.left)]
+    in_loop = any(isinstance(l, (ast.For, ast.While)) and any(t in list(ast.walk(l)) for t in tests) for l in ast.walk(cs))
+    r.instance("_contains_snippet", {"whole_file_reads": len(whole), "sized_reads": len(sized), "membership_tests": len(tests),
+                                     "test_inside_loop": in_loop, "indicator": repr(ind)})
+    if ind != b"SPDX-SnippetBegin":
+        r.violation(f"{EX}.SPDX_SNIPPET_INDICATOR", "snippet indicator", f"{ind!r}", repo.loc(cs))
+    if sized and in_loop:
+        r.violation(f"{EX}._contains_snippet", "snippet marker searched chunk by chunk",
+                    "a marker that straddles a chunk boundary is in neither chunk: the file is then treated as snippet-free and"
+                    " only its first 4 KiB are scanned", repo.loc(sized[0]))
+    elif not (len(whole) == 1 and not sized and len(tests) >= 1 and not in_loop):
+        raise AnalysisError("_contains_snippet: unrecognised way of searching the snippet marker (neither a whole-file read"
+                            " nor a chunk loop)")
     # R6 decode
     dq = f"{EX}.decoded_text_from_binary"
     dfn = repo.func(dq)
